@@ -262,4 +262,196 @@ theorem good2_end (o : ObjCfg) (P : List Sym) (st : OState) (h : Good2 c o P st)
     · rw [hce] at h; simp at h
     · exact h
 
+theorem runObj_append (rc : RxCfg) (o : ObjCfg) : ∀ (a b : List Ev) (st : OState),
+    runObj c.canDecode rc o st (a ++ b) = runObj c.canDecode rc o (runObj c.canDecode rc o st a) b := by
+  intro a
+  induction a with
+  | nil => intro b st; simp [runObj]
+  | cons e es ih => intro b st; simp only [List.cons_append, runObj]; exact ih b _
+
+/-- the FDT instance listing the object completes while the object is alive: it gets attached -/
+theorem fdt_attaches (rc : RxCfg) (o : ObjCfg) (hN : o.ks.isEmpty = false) (hfit : Fits rc o)
+    (st : OState) (P : List Sym) (rx : ORx) (hinv : Inv c o P st) (hobj : st.obj = some rx) :
+    Good2 c o P (stepObj c.canDecode rc o st (.fdt true)) := by
+  by_cases hatt : rx.attached = true
+  · exact stepObj_fdt_good2 c rc o st true P (Or.inr ⟨hinv, rx, hobj, hatt⟩)
+  · have hatt' : rx.attached = false := by simpa using hatt
+    obtain ⟨hnd, hob⟩ := hinv
+    simp only [hobj] at hob
+    obtain ⟨Pb, hcov, hmem, hcache, hai, hknown⟩ := hob
+    simp only [stepObj, fdtEv, hobj, hatt', Bool.not_false, Bool.and_self, ↓reduceIte]
+    have ha := attach_spec c rc o hN hfit rx Pb hcache hcov _ rfl
+    obtain ⟨h1, h2, h3, h4⟩ := ha
+    rcases h1 with h1 | h1
+    · right
+      rw [finish_receiving o _ _ h1]
+      obtain ⟨hc, hai', hce⟩ := h4 h1
+      refine ⟨⟨by simp [hnd], ?_⟩, _, rfl, h2⟩
+      simp only
+      refine ⟨rx.cache ++ Pb, hc, ?_, ?_, hai', fun _ => ⟨h3, hce⟩⟩
+      · intro q hq
+        right
+        rcases hmem q hq with h | h
+        · exact List.mem_append_left _ h
+        · exact List.mem_append_right _ h
+      · intro q hq; rw [hce] at hq; simp at hq
+    · left
+      simp only
+      rw [finish_completed o _ _ h1 h2]; simp
+
+/-- no object yet: FDT instances only age the attachable one -/
+theorem run_fdts_none (rc : RxCfg) (o : ObjCfg) : ∀ (fs : List Ev) (st : OState) (a : Nat),
+    (∀ e, e ∈ fs → ∃ l, e = Ev.fdt l) → Inv c o [] st → st.obj = none → st.age = some a → a + fs.length < 10 →
+    Inv c o [] (runObj c.canDecode rc o st fs) ∧ (runObj c.canDecode rc o st fs).obj = none ∧
+      (runObj c.canDecode rc o st fs).age.isSome = true ∧
+      (runObj c.canDecode rc o st fs).completes = st.completes := by
+  intro fs
+  induction fs with
+  | nil => intro st a _ hinv hobj hage _; simp [runObj, hinv, hobj, hage]
+  | cons e es ih =>
+    intro st a hfs hinv hobj hage hlen
+    obtain ⟨l, rfl⟩ := hfs e (List.mem_cons_self ..)
+    unfold runObj
+    have hst : stepObj c.canDecode rc o st (.fdt l) =
+        { st with completed := st.completed && l, age := ageStep st.age l } := by
+      simp only [stepObj, fdtEv, hobj]
+    rw [hst]
+    simp only [List.length_cons] at hlen
+    have hage' : ∃ a', ageStep st.age l = some a' ∧ a' + es.length < 10 := by
+      rw [hage]; unfold ageStep
+      by_cases hl : l = true
+      · exact ⟨0, by simp [hl], by omega⟩
+      · have : a + 1 < 10 := by omega
+        exact ⟨a + 1, by simp [hl, this], by omega⟩
+    obtain ⟨a', ha', hlen'⟩ := hage'
+    have := ih { st with completed := st.completed && l, age := ageStep st.age l } a'
+      (fun e he => hfs e (List.mem_cons_of_mem _ he))
+      ⟨by simp [hinv.notDone], by simp [hobj]⟩ (by simp [hobj]) ha' hlen'
+    simpa using this
+
+/-- the object's first packet finds an attachable FDT instance: it is created attached -/
+theorem created_attached (rc : RxCfg) (o : ObjCfg) (hN : o.ks.isEmpty = false) (hfit : Fits rc o)
+    (st : OState) (s : Sym) (hgen : Genuine o s) (hnc : s.close = false)
+    (hinv : Inv c o [] st) (hobj : st.obj = none) (hage : st.age.isSome = true) :
+    Good2 c o [s] (stepObj c.canDecode rc o st (.pkt s)) := by
+  have hg := stepObj_pkt_good c rc o hN hfit st s [] hgen hnc (Or.inr hinv)
+  rcases hg with hg | hg
+  · exact Or.inl hg
+  · right
+    refine ⟨hg, ?_⟩
+    have hnd := hinv.notDone
+    have hob := hg.obj
+    simp only [stepObj, hnd, Bool.false_eq_true, ↓reduceIte, pushNew, hobj, hage] at hob ⊢
+    have ha := attach_spec c rc o hN hfit rx0 [] (by intro q hq; simp [rx0] at hq) (by intro q hq; simp at hq) _ rfl
+    obtain ⟨h1, h2, h3, h4⟩ := ha
+    rcases h1 with h1 | h1
+    · simp only [h1, bne_self_eq_false, Bool.false_eq_true, ↓reduceIte] at hob ⊢
+      split at hob
+      · simp at hob
+      · rename_i x hx
+        exact ⟨x, hx, by rw [pushObj_obj_attached c rc o _ _ s x hx]; exact h2⟩
+    · have hne : ((attach c.canDecode rc o rx0).term != Term.receiving) = true := by rw [h1]; rfl
+      simp only [hne, ↓reduceIte] at hob
+      unfold finish at hob
+      simp [h1] at hob
+
+theorem closeOK_fdts (o : ObjCfg) (P : List Sym) : ∀ (fs rest : List Ev),
+    (∀ e, e ∈ fs → ∃ l, e = Ev.fdt l) → CloseOK c o P (fs ++ rest) → CloseOK c o P rest := by
+  intro fs
+  induction fs with
+  | nil => intro rest _ h; simpa using h
+  | cons e es ih =>
+    intro rest hfs h
+    obtain ⟨l, rfl⟩ := hfs e (List.mem_cons_self ..)
+    exact ih rest (fun e he => hfs e (List.mem_cons_of_mem _ he)) h
+
+theorem pktSyms_fdts : ∀ (fs : List Ev), (∀ e, e ∈ fs → ∃ l, e = Ev.fdt l) → pktSyms fs = [] := by
+  intro fs
+  induction fs with
+  | nil => intro _; rfl
+  | cons e es ih =>
+    intro hfs
+    obtain ⟨l, rfl⟩ := hfs e (List.mem_cons_self ..)
+    simp only [pktSyms]
+    exact ih (fun e he => hfs e (List.mem_cons_of_mem _ he))
+
+/-- **Core of C02.**  `h` = what one object sees: its packets (any sub-multiset of what the sender
+    emitted, order preserved) and the completions of FDT instances.  If an FDT instance listing
+    the object completes at a point where the object can be attached, every close-object packet
+    comes after decodable symbols of every block, and in the end every block has decodable
+    symbols, then the object writer gets `complete`. -/
+theorem recoverable_core (rc : RxCfg) (o : ObjCfg) (hN : o.ks.isEmpty = false) (hfit : Fits rc o)
+    (pre post : List Ev)
+    (hgen : ∀ s, Ev.pkt s ∈ pre ++ Ev.fdt true :: post → Genuine o s)
+    (hpre : ∀ s, Ev.pkt s ∈ pre → s.close = false)
+    (hatt : (∃ s, Ev.pkt s ∈ pre) ∨
+      ∃ fs rest, post = fs ++ rest ∧ (∀ e, e ∈ fs → ∃ l, e = Ev.fdt l) ∧ fs.length < 10 ∧
+        ∃ s rest', rest = Ev.pkt s :: rest')
+    (hclose : CloseOK c o (pktSyms pre).reverse post)
+    (hend : AllDec c o (pktSyms (pre ++ Ev.fdt true :: post))) :
+    1 ≤ (runObj c.canDecode rc o {} (pre ++ Ev.fdt true :: post)).completes := by
+  rw [runObj_append]
+  simp only [runObj]
+  have h1 := run_noclose c rc o hN hfit pre {} []
+    (fun s hs => ⟨hgen s (List.mem_append_left _ hs), hpre s hs⟩) (good_init c o)
+  simp only [List.append_nil] at h1
+  have hgen_post : ∀ s, Ev.pkt s ∈ post → Genuine o s :=
+    fun s hs => hgen s (List.mem_append_right _ (List.mem_cons_of_mem _ hs))
+  have hend' : AllDec c o ((pktSyms post).reverse ++ (pktSyms pre).reverse) := by
+    apply allDec_mono c o _ _ _ hend
+    intro q hq
+    rw [pktSyms_append] at hq
+    simp only [pktSyms, List.mem_append] at hq
+    simp only [List.mem_append, List.mem_reverse]
+    rcases hq with h | h
+    · exact Or.inr h
+    · exact Or.inl h
+  rcases h1 with h1 | h1
+  · exact Nat.le_trans (Nat.le_trans h1 (stepObj_completes_ge c rc o _ _)) (runObj_completes_ge c rc o _ _)
+  · cases hobj : (runObj c.canDecode rc o {} pre).obj with
+    | some rx =>
+      have h2 := fdt_attaches c rc o hN hfit _ _ rx h1 hobj
+      have h3 := run_good2 c rc o hN hfit post _ _ hgen_post hclose h2
+      exact good2_end c o _ _ h3 hend'
+    | none =>
+      have hP : (pktSyms pre).reverse = [] := by
+        have := h1.obj; simpa [hobj] using this
+      have hnopre : ∀ s, ¬ Ev.pkt s ∈ pre := by
+        intro s hs
+        have : s ∈ (pktSyms pre).reverse := by simp [mem_pktSyms, hs]
+        rw [hP] at this; simp at this
+      rcases hatt with ⟨s, hs⟩ | ⟨fs, rest, hpost, hfs, hlen, s, rest', hrest⟩
+      · exact absurd hs (hnopre s)
+      · rw [hP] at h1 hclose hend'
+        -- state after the FDT event: no object, attachable
+        have hst : stepObj c.canDecode rc o (runObj c.canDecode rc o {} pre) (.fdt true) =
+            { (runObj c.canDecode rc o {} pre) with
+                completed := (runObj c.canDecode rc o {} pre).completed && true,
+                age := ageStep (runObj c.canDecode rc o {} pre).age true } := by
+          simp only [stepObj, fdtEv, hobj]
+        rw [hst, hpost, runObj_append]
+        have hphase := run_fdts_none c rc o fs
+          { (runObj c.canDecode rc o {} pre) with
+              completed := (runObj c.canDecode rc o {} pre).completed && true,
+              age := ageStep (runObj c.canDecode rc o {} pre).age true } 0 hfs
+          ⟨by simp [h1.notDone], by simp [hobj]⟩ (by simp [hobj]) (by simp [ageStep]) (by omega)
+        obtain ⟨p1, p2, p3, _⟩ := hphase
+        have hcl2 : CloseOK c o [] rest := closeOK_fdts c o [] fs rest hfs (by rw [← hpost]; exact hclose)
+        subst hrest
+        obtain ⟨hc1, hc2⟩ := hcl2
+        have hgs : Genuine o s := hgen_post s (by rw [hpost]; simp)
+        have hgr : ∀ q, Ev.pkt q ∈ rest' → Genuine o q := fun q hq => hgen_post q (by rw [hpost]; simp [hq])
+        have hend2 : AllDec c o ((pktSyms rest').reverse ++ [s]) := by
+          apply allDec_mono c o _ _ _ hend'
+          intro q hq
+          rw [hpost, pktSyms_append, pktSyms_fdts fs hfs] at hq
+          simpa [pktSyms, or_comm] using hq
+        simp only [runObj]
+        by_cases hclose_s : s.close = true
+        · have := stepObj_close c rc o hN hfit _ s [] hgs p1 (Or.inr ⟨p2, p3⟩) (hc1 hclose_s)
+          exact Nat.le_trans this (runObj_completes_ge c rc o _ _)
+        · have h2 := created_attached c rc o hN hfit _ s hgs (by simpa using hclose_s) p1 p2 p3
+          have h3 := run_good2 c rc o hN hfit rest' _ _ hgr hc2 h2
+          exact good2_end c o _ _ h3 hend2
+
 end Flute.Lemmas.Session
